@@ -30,6 +30,8 @@ pub struct Node {
     pub trace: Arc<Vec<Value>>,
     /// headers of the sealed states on the honest segment leading here (reset by a jump), oldest first
     pub lineage: Arc<Vec<Header>>,
+    /// part of the state key: 1 after a restart, so that the continuation of a rebuilt state is explored in its own right
+    pub salt: u8,
 }
 
 #[derive(Clone, Debug)]
@@ -85,7 +87,7 @@ impl Node {
     pub fn key(&self) -> [u8; 32] {
         let v = self.view();
         let mut h = blake3::Hasher::new();
-        h.update(&[self.is_open() as u8]);
+        h.update(&[self.is_open() as u8, self.salt]);
         h.update(&v.header().hash().0);
         h.update(&self.tips().to_be_bytes());
         if let Real::Sealed(s) = &self.real {
@@ -111,7 +113,8 @@ impl Node {
             (Action::Jump(_), Real::Sealed(s)) => lineage = Arc::new(vec![s.header()]),
             _ => {}
         }
-        Node { real, model, path: Arc::new(p), trace: Arc::new(t), lineage }
+        let salt = if matches!(a, Action::Restart) { 1 } else { self.salt };
+        Node { real, model, path: Arc::new(p), trace: Arc::new(t), lineage, salt }
     }
     pub fn replay_json(&self, next: Option<&Action>) -> Value {
         let mut t = (*self.trace).clone();
@@ -149,6 +152,7 @@ pub fn model_of(s: &Sealed, universe: &[CoinID], pool_keys: &[PoolKey], block_tx
         dosc_speed: h.dosc_speed,
         block_txs: block_txs.iter().map(|t| (t.hash_nosigs(), t.clone())).collect(),
         seen_pool_keys: pool_keys.iter().cloned().collect(),
+        stake_txs_seen: Default::default(),
     }
 }
 
@@ -510,6 +514,19 @@ impl<'a> Engine<'a> {
                 }
                 if mres.is_ok() {
                     run.outcome(&format!("batch:stricter-than-model:{}", err_name(&e)));
+                    // C13: a coin is locked only by a registered, unexpired stake of its creating transaction
+                    if matches!(e, StateError::CoinLocked) && n.model.rules().stake_lock {
+                        let batch_stakes: BTreeSet<_> = txs.iter().filter(|t| t.kind == TxKind::Stake).map(|t| t.hash_nosigs()).collect();
+                        let any_stake = txs.iter().flat_map(|t| t.inputs.iter()).any(|i| n.model.stakes.contains_key(&i.txhash) || batch_stakes.contains(&i.txhash));
+                        if !any_stake {
+                            run.violation(
+                                "C13",
+                                "locked-without-registered-stake".into(),
+                                format!("[{}] after [{}] was rejected as locked although no registered, unexpired stake covers any of its inputs", label, n.path_str()),
+                                n.replay_json(Some(a)),
+                            );
+                        }
+                    }
                     if expect_ok {
                         // plain templates are expected to be accepted: non-vacuity signal, triaged by hand (C06 covers honest blocks)
                         run.outcome(&format!("batch:plain-template-rejected:{}:{}", label.split('(').next().unwrap_or(""), err_name(&e)));
